@@ -323,6 +323,26 @@ def real_ecos_stream(ctx):
             ctx.count('real_ecos', name)
             if not (got[0] == 'solved' and abs(got[1] - want) <= 1e-5 * (1 + abs(want))):
                 fails.append('%s: reported (%s, %r), expected (solved, %r)' % (name, got[0], got[1], want))
+        # Variables that occur ONLY in an earlier argument of a multi-argument atom (the first argument of relent, the leading components of a norm) and in
+        # no linear constraint still receive their values, also when they hold stale values from an earlier Problem
+        from scipy.optimize import brentq
+        xr = cl.Variable(shape=(2,), name='fa_x')
+        yr = cl.Variable(shape=(2,), name='fa_y')
+        st, val = cl.Problem(cl.MAX, xr[0] + xr[1], [cl.relent(xr, yr) <= 1, yr == np.array([1.0, 1.0])]).solve(solver='ECOS', verbose=False)
+        x_star = brentq(lambda t_: t_ * math.log(t_) - 0.5, 1.0, 3.0)
+        ctx.count('real_ecos', 'first_argument_only')
+        if not (st == 'solved' and abs(val - 2 * x_star) <= 1e-4 and np.allclose(np.asarray(xr.value, dtype=float), x_star, atol=1e-3)):
+            fails.append('max x0 + x1 s.t. relent(x, y) <= 1, y = (1, 1) (x occurs only in the FIRST argument of relent): reported (%s, %r) with x = %r; the optimum is %r at x = (%r, %r)'
+                         % (st, val, np.asarray(xr.value).tolist(), 2 * x_star, x_star, x_star))
+        ur = cl.Variable(shape=(2,), name='fa_u')
+        wr = cl.Variable(shape=(1,), name='fa_w')
+        tr_ = cl.Variable(shape=(1,), name='fa_t')
+        cl.Problem(cl.MIN, ur[0] + ur[1], [ur >= 10]).solve(solver='ECOS', verbose=False)        # leaves u = (10, 10)
+        st, val = cl.Problem(cl.MIN, tr_[0], [cl.vector2norm(cl.hstack((ur - np.array([1.0, 2.0]), wr - 3.0))) <= tr_, wr >= 4]).solve(solver='ECOS', verbose=False)
+        uv = np.asarray(ur.value, dtype=float)
+        if not (st == 'solved' and abs(val - 1.0) <= 1e-4 and np.allclose(uv, [1.0, 2.0], atol=1e-3)):
+            fails.append('min t s.t. |(u - (1, 2), w - 3)| <= t, w >= 4 after an earlier Problem left u = (10, 10): reported (%s, %r) with u = %r; the optimum is 1 at u = (1, 2)'
+                         % (st, val, uv.tolist()))
         # an objective in which a ScalarVariable cancels (telescoping sums) and that ScalarVariable occurs in no constraint: the model may be refused
         # at construction, but a reported optimum must be the optimum of the objective as written (here 4, attained at w0 = 1, w2 = 5)
         for order in (0, 1, 2):
